@@ -335,7 +335,7 @@ class SymReal:
             if a == 1:
                 return 1.0
             return 0.0
-        return SymReal(POW(self.t, tz(o)))
+        return _mkpow(self.t, tz(o))
 
     def __rpow__(self, o):
         if is_special(o):
@@ -357,7 +357,7 @@ class SymReal:
                 return 1.0
             if o == 1:
                 return 1.0
-        return SymReal(POW(tz(o), self.t))
+        return _mkpow(tz(o), self.t)
 
     # ---- comparisons
     def _cmp(self, o, op):
@@ -384,7 +384,11 @@ class SymReal:
     def __ne__(self, o): return self._cmp(o, 'ne')
 
     # ---- numpy calls these methods on object-array elements
-    def exp(self): return SymReal(EXP(self.t))
+    def exp(self):
+        e = EXP(self.t)
+        if Ctx.cur is not None:
+            Ctx.cur.assume(e > 0)          # true fact about exp; keeps sign tests from forking
+        return SymReal(e)
 
     def log(self):
         ctx = Ctx.cur
@@ -392,7 +396,7 @@ class SymReal:
             ctx.defined.append(('log', self.t > 0))
         return SymReal(LOG(self.t))
 
-    def sqrt(self): return SymReal(POW(self.t, z3.RealVal('1/2')))
+    def sqrt(self): return _mkpow(self.t, z3.RealVal('1/2'))
 
     # further unary/binary ufunc methods numpy looks up on object elements
     def expm1(self): return self.exp() - 1
@@ -436,6 +440,13 @@ class SymReal:
 
     def __deepcopy__(self, memo):
         return self
+
+
+def _mkpow(b, e):
+    p = POW(b, e)
+    if Ctx.cur is not None:
+        Ctx.cur.assume(z3.Implies(b > 0, p > 0))   # true fact about real powers
+    return SymReal(p)
 
 
 def _divide(a, b):
